@@ -94,6 +94,8 @@ structure JInv (c : Cfg) : Prop where
   hro : ∀ x ∈ heldR c.joins, x ∉ c.orphans
   /-- a join is on record only while its branches run -/
   jne : evK c = [] → c.joins = []
+  /-- the records of the attempts are not those the engine keeps after the end of an execution -/
+  live : ∀ j ∈ c.joins, j.ended = false
 
 /-- conserved: the terminal notification is out exactly when nothing is left, `N` Task visits in all, no reply without
 its event -/
